@@ -56,7 +56,32 @@ ALIAS = {"specdelta": "delta", "specsigma": "sigma", "specdmax": "dmax", "specre
 
 
 def _q(name, seq, args):
-    sp = SP()(seq)
+    return query(SP()(seq), name, args)
+
+
+def mat(a):
+    import numpy as np
+    a = np.atleast_2d(np.asarray(a, dtype=float))
+    return ("mat", [[float(x) for x in row] for row in a])
+
+
+def groups_tok(t):
+    if t == "-":
+        return None
+    return [parse_group_tok(g) for g in t.split(";")]
+
+
+def dict_tok(t):
+    if t == "-":
+        return {}
+    d = {}
+    for kv in t.split(","):
+        k, v = kv.split("=")
+        d[unhex6(k)] = 5 if v == "n" else unhex6(v)
+    return d
+
+
+def query(sp, name, args):
     name = ALIAS.get(name, name)
     if name == "kappa":
         return num(sp.get_kappa())
@@ -122,6 +147,53 @@ def _q(name, seq, args):
         return num(sp.get_molecular_weight())
     if name == "scd":
         return num(sp.get_SCD())
+    if name == "seq":
+        s_ = sp.get_sequence()
+        if not (sp.get_length() == len(sp) == len(s_)):
+            return ("exc", "Inconsistent", "get_length/len/get_sequence disagree")
+        return ("str", s_)
+    if name == "len":
+        return ("int", int(sp.get_length()))
+    if name == "sty":
+        return ("ints", [int(x) for x in sp.get_all_phosphorylatable_sites()])
+    if name == "linNCPR":
+        return mat(sp.get_linear_NCPR(int(args[0])))
+    if name == "linFCR":
+        return mat(sp.get_linear_FCR(int(args[0])))
+    if name == "linSigma":
+        return mat(sp.get_linear_sigma(int(args[0])))
+    if name == "linHydro":
+        return mat(sp.get_linear_hydropathy(int(args[0])))
+    if name == "linComp":
+        import numpy as np
+        g = groups_tok(args[1])
+        r = sp.get_linear_sequence_composition(int(args[0])) if g is None else sp.get_linear_sequence_composition(int(args[0]), g)
+        return mat(np.vstack((np.asarray(r[0], dtype=float), np.atleast_2d(np.asarray(r[1], dtype=float)))))
+    if name == "reduce":
+        ua = dict_tok(args[1])
+        size = args[0]
+        size = int(size) if size.lstrip("-").isdigit() else size
+        r = sp.get_reduced_alphabet_sequence(size, ua) if ua else sp.get_reduced_alphabet_sequence(size)
+        return ("red", r[0], "".join(r[1]))
+    if name == "cplx":
+        typ, size, ua, w, st, ws = args
+        ua = dict_tok(ua)
+        size = int(size) if size.lstrip("-").isdigit() else size
+        r = sp.get_linear_complexity(complexityType=typ, alphabetSize=size, userAlphabet=ua, blobLen=int(w), stepSize=int(st), wordSize=int(ws))
+        return mat(r)
+    if name == "titr":
+        return ("skip",)
+    if name == "kappaphos":
+        return num(sp.get_kappa_after_phosphorylation())
+    if name == "getphos":
+        return ("ints", [int(x) for x in sp.get_phosphosites()])
+    if name == "phosseq":
+        return ("str", sp.get_phosphosequence())
+    if name == "phosdist":
+        r = sp.get_full_phosphostatus_kappa_distribution()
+        return ("dist", [([float(x) for x in e[:6]], "".join(str(b) for b in e[6])) for e in r])
+    if name == "html":
+        return ("str", sp.get_HTMLColorString())
     if name == "lag":
         # the real code has no lag API: this op is only meaningful on the driver side
         return ("skip",)
